@@ -306,8 +306,12 @@ def falsify(ctx):
     for h in ctx.hints:
         run(*h)
     twins = list(twin_sweep())
+    if not ctx.thorough:
+        key = [t for t in twins if any(k in t[0].split("/") for k in ("closed", "open", "same"))]
+        rest = [t for t in twins if t not in key]
+        twins = key + rng.sample(rest, 10)
     for name, doc in twins:
-        for opts in ({"reuse_model": True}, {"reuse_model": True, "collapse_root_models": True}):
+        for opts in (({"reuse_model": True}, {"reuse_model": True, "collapse_root_models": True}) if ctx.thorough else ({"reuse_model": True},)):
             run(doc, V2, dict(opts))
     shapes = list(shape_sweep())
     for name, doc in shapes:
